@@ -144,9 +144,9 @@ func (g *gen) storms() {
 
 func (g *gen) randomKills() {
 	e := g.e
-	n := 10
+	n := 16
 	if g.a.Tier == "thorough" {
-		n = 300
+		n = 400
 	}
 	var span time.Duration
 	for rep := 0; rep < n; rep++ {
@@ -185,7 +185,12 @@ func (g *gen) randomKills() {
 		w1, w2 := len(writers), len(writers)+1
 		writers = append(writers, wspec{u, e.big[0]}, wspec{u, e.big[1]})
 		sched = append(sched, sev{Kind: "S", Idx: w1}, sev{Kind: "S", Idx: w2})
-		cmd := g.childCmd("loop", root, u, e.big[0], "VH_C14_BUNDLE2="+filepath.Join(e.bdir, e.big[1].Name))
+		mode := "loop"
+		if rep%2 == 1 {
+			mode = "loopraw" // all of the loop is file.WriteFile: the kill lands inside it almost surely
+		}
+		cmd := g.childCmd(mode, root, u, e.big[0], "VH_C14_BUNDLE2="+filepath.Join(e.bdir, e.big[1].Name),
+			"VH_C14_KEYPATH="+filepath.Join(root, e.keyOf[u]))
 		outp, err := cmd.StdoutPipe()
 		if err != nil {
 			panic(err)
@@ -194,7 +199,11 @@ func (g *gen) randomKills() {
 			panic(err)
 		}
 		line, _ := bufio.NewReader(outp).ReadString('\n')
-		delay := time.Duration(r.Intn(int(4*span/time.Microsecond)+1)) * time.Microsecond
+		mult := 4
+		if mode == "loopraw" {
+			mult = 2
+		}
+		delay := time.Duration(r.Intn(int(time.Duration(mult)*span/time.Microsecond)+1)) * time.Microsecond
 		time.Sleep(delay)
 		cmd.Process.Kill()
 		cmd.Wait()
@@ -204,7 +213,8 @@ func (g *gen) randomKills() {
 			reads = append(reads, readObs{Reader: k, URL: ru, Res: e.get(fc, ru)})
 		}
 		g.emit(id, "proc-random-kill", true, writers, nil, sched, nil, reads, root, line != "",
-			fmt.Sprintf("a child process storing the %d-byte and %d-byte entries alternately in a loop was SIGKILLed %v after it started (one Set takes about %v here)", len(e.big[0].Ref), len(e.big[1].Ref), delay, span))
+			fmt.Sprintf("a child process (%s) storing the %d-byte and %d-byte entries alternately in a loop was SIGKILLed %v after it started (one Set takes about %v here); loopraw = the entry bytes stored with internal/file.WriteFile directly", mode, len(e.big[0].Ref), len(e.big[1].Ref), delay, span))
+		g.w.Count("random_kill_mode", mode)
 		os.RemoveAll(root)
 	}
 }
